@@ -680,7 +680,7 @@ func c42Scenarios() []c42Params {
 		return []c42Params{mk(3, 2, 1, 1, false)}
 	}
 	// ascending cost; the last one is the largest
-	return []c42Params{mk(3, 3, 1, 1, false), mk(3, 2, 2, 0, false), mk(3, 2, 1, 3, false), mk(3, 2, 2, 1, true)}
+	return []c42Params{mk(3, 2, 2, 0, false), mk(3, 3, 1, 1, false), mk(3, 2, 1, 3, false), mk(3, 2, 2, 1, true)}
 }
 
 // c42Deadline gives scenario i of n an equal share of the wall budget that is left.
